@@ -301,7 +301,16 @@ func finish(chk *Check, c *Ctx, results []*CaseResult) int {
 	ev.Coverage["rule"] = chk.Rule
 	ev.Coverage["cases"] = len(results)
 	if len(samples) == 0 {
-		samples = []interface{}{}
+		// no case volunteered a written-out sample: describe the first case that ran
+		for _, r := range results {
+			if r != nil && r.Evals > 0 {
+				samples = append(samples, map[string]interface{}{"case_index": r.Index, "executions": r.Evals, "counters": r.Counters, "note": "replay with --n / the case index to see it in full"})
+				break
+			}
+		}
+		if len(samples) == 0 {
+			samples = []interface{}{}
+		}
 	}
 	ev.Coverage["samples"] = samples
 	ev.Coverage["inconclusive"] = inconc
